@@ -973,7 +973,7 @@ class Process:
         ret = []
         if not recursive:
             for pid, ppid in ppid_map.items():
-                if ppid == self.pid:
+                if ppid == self.pid and pid != self.pid:
                     try:
                         child = Process(pid)
                         # if child happens to be older than its parent
@@ -1000,6 +1000,10 @@ class Process:
                     continue
                 seen.add(pid)
                 for child_pid in reverse_ppid_map[pid]:
+                    if child_pid == self.pid:
+                        # a cycle in the recorded process "tree" (see
+                        # above) leading back to this process
+                        continue
                     try:
                         child = Process(child_pid)
                         # if child happens to be older than its parent
